@@ -68,6 +68,11 @@ func New(expr parser.Expr, queryable storage.Queryable, mint, maxt time.Time, st
 }
 
 func newOperator(expr parser.Expr, storage *engstore.SelectorPool, opts *query.Options, hints storage.SelectHints) (model.VectorOperator, error) {
+	op, err := buildOperator(expr, storage, opts, hints)
+	return verifWrap(op, err, expr, opts)
+}
+
+func buildOperator(expr parser.Expr, storage *engstore.SelectorPool, opts *query.Options, hints storage.SelectHints) (model.VectorOperator, error) {
 	switch e := expr.(type) {
 	case *parser.NumberLiteral:
 		return scan.NewNumberLiteralSelector(model.NewVectorPool(stepsBatch), opts, e.Val), nil
